@@ -53,6 +53,7 @@ def case_from_tlc(obj, h, g):
     for f in inp["files"]:
         f["lay"] = rnd.randrange(1, 1000) if rnd.randrange(4) else 0
     inp["modes"] = ["bydir", "top"]
+    inp["prior"] = inp.get("root") != "." and rnd.randrange(4) == 0   # the report directory of an earlier run is still there
     return {"case": "tlc-" + h, "input": inp}
 
 
